@@ -203,14 +203,28 @@ def run_model(ident, lines, jobs=None):
     import threading
     results = [None] * len(procs)
 
+    limit = int(os.environ.get("VERIF_MODEL_TIMEOUT", "3600"))
+
     def work(i, p, sh):
-        o, _ = p.communicate("\n".join(sh) + "\n")
-        results[i] = o.split("\n")[:len(sh)]
-    ths = [threading.Thread(target=work, args=(i, p, sh)) for i, (p, sh) in enumerate(procs)]
-    for t in ths:
-        t.start()
-    for t in ths:
-        t.join()
+        try:
+            o, _ = p.communicate("\n".join(sh) + "\n", timeout=limit)
+            results[i] = o.split("\n")[:len(sh)]
+        except subprocess.TimeoutExpired:
+            p.kill()
+            results[i] = None
+    ths = [threading.Thread(target=work, args=(i, p, sh), daemon=True) for i, (p, sh) in enumerate(procs)]
+    try:
+        for t in ths:
+            t.start()
+        for t in ths:
+            t.join()
+    finally:
+        for (p, _sh) in procs:          # never leave a driver behind (e.g. when the harness is interrupted)
+            if p.poll() is None:
+                try:
+                    p.kill()
+                except OSError:
+                    pass
     out = [None] * n
     for j, res in enumerate(results):
         if res is None or len(res) != len(shards[j]):
